@@ -345,6 +345,23 @@ def d9(ctx):
                 for a in x[1:]:
                     if isinstance(a, (tuple, Lin)):
                         walk(a)
+            # `a > b && c >= min` as the returned expression: the comparisons inside the returned values are size tests too
+            def cmps(x, out, depth=0):
+                if depth > 40:
+                    return
+                if isinstance(x, Lin):
+                    for a_ in x.m:
+                        cmps(a_, out, depth + 1)
+                elif isinstance(x, (tuple, list)):
+                    if tag(x) == "cmp":
+                        out.append(x)
+                        return
+                    for a_ in x:
+                        if isinstance(a_, (tuple, list, Lin)):
+                            cmps(a_, out, depth + 1)
+            for r in res.log:
+                if r["kind"] == "ret0" and not r["chain"]:
+                    cmps(r["value"], conds)
             for c in conds:
                 walk(c)
             yield Ob(key_of("C20-D9", b.path, "threshold-is-header-minimum"), n_min >= 1 and not other,
